@@ -17,7 +17,7 @@ FLOORS = {'quick': {'groups_evaluated': 150}, 'thorough': {'groups_evaluated': 3
 COUNT = {'quick': 360, 'thorough': 8000}
 BUDGET_S = {'quick': 55, 'thorough': 540}
 
-KNOBS = {'n_min': 2, 'n_max': 5, 'late_p': 0.3, 'trigger_p': 0.6,
+KNOBS = {'n_min': 2, 'n_max': 5, 'late_p': 0.3, 'trigger_p': 0.6, 'crash_on_request_p': 0.08,
          'kinds': ['crash', 'restart', 'restart', 'partition', 'cutlink', 'crash_master', 'restart_master',
                    'proc_kill', 'dup', 'dup'],
          'apps': {'n_apps': (1, 3), 'n_progs': (1, 3), 'startsecs': (0, 8)}}
